@@ -78,8 +78,9 @@ def _dtype_canon(e):
 
 
 class _E1(ast.NodeTransformer):
-    def __init__(self, callee_info):
+    def __init__(self, callee_info, kwarg=None):
         self.callee_info = callee_info
+        self.kwarg = kwarg           # name of the function's **kwargs parameter: certainly a dict
 
     def visit_Compare(self, n):
         self.generic_visit(n)
@@ -159,6 +160,13 @@ class _E1(ast.NodeTransformer):
 
     def visit_IfExp(self, n):
         self.generic_visit(n)
+        # a if not c else b  ->  b if c else a      (negative tests: not, not in, is not, !=)
+        t = n.test
+        if isinstance(t, ast.UnaryOp) and isinstance(t.op, ast.Not):
+            n.test, n.body, n.orelse = t.operand, n.orelse, n.body
+        elif isinstance(t, ast.Compare) and len(t.ops) == 1 and isinstance(t.ops[0], (ast.NotIn, ast.IsNot, ast.NotEq)):
+            t.ops = [{ast.NotIn: ast.In, ast.IsNot: ast.Is, ast.NotEq: ast.Eq}[type(t.ops[0])]()]
+            n.body, n.orelse = n.orelse, n.body
         # f(a) if c else f(b)  ->  f(a if c else b)      (same callee, one differing positional argument, no keywords)
         a, b = n.body, n.orelse
         if isinstance(a, ast.Call) and isinstance(b, ast.Call) and ast.dump(a.func) == ast.dump(b.func) and len(a.args) == len(b.args) == 1 \
@@ -202,6 +210,22 @@ class _E1(ast.NodeTransformer):
                 return ast.copy_location(ast.Constant(value=body[0].value.value), n)
         if info is not None:
             info = info[:2]
+        # int(a if c else 3)  ->  int(a) if c else 3      (the conversion of a literal of that very type is the literal)
+        if isinstance(f, ast.Name) and f.id in ('int', 'float', 'str', 'bool') and len(n.args) == 1 and not n.keywords and isinstance(n.args[0], ast.IfExp):
+            ty = {'int': int, 'float': float, 'str': str, 'bool': bool}[f.id]
+            ie = n.args[0]
+            if isinstance(ie.orelse, ast.Constant) and type(ie.orelse.value) is ty:
+                return ast.copy_location(ast.IfExp(test=ie.test, body=ast.Call(func=f, args=[ie.body], keywords=[]), orelse=ie.orelse), n)
+            if isinstance(ie.body, ast.Constant) and type(ie.body.value) is ty:
+                return ast.copy_location(ast.IfExp(test=ie.test, body=ie.body, orelse=ast.Call(func=f, args=[ie.orelse], keywords=[])), n)
+        # kwargs.get(K, V)  ->  kwargs[K] if K in kwargs else V      (kwargs is the ** parameter, a dict; K and V literals or names)
+        if self.kwarg and isinstance(f, ast.Attribute) and f.attr == 'get' and isinstance(f.value, ast.Name) and f.value.id == self.kwarg \
+                and 1 <= len(n.args) <= 2 and not n.keywords and isinstance(n.args[0], ast.Constant) \
+                and (len(n.args) == 1 or isinstance(n.args[1], (ast.Constant, ast.Name))):
+            dflt = n.args[1] if len(n.args) == 2 else ast.Constant(value=None)
+            new = ast.IfExp(test=ast.Compare(left=clone(n.args[0]), ops=[ast.In()], comparators=[ast.Name(id=self.kwarg, ctx=ast.Load())]),
+                            body=ast.Subscript(value=ast.Name(id=self.kwarg, ctx=ast.Load()), slice=n.args[0], ctx=ast.Load()), orelse=dflt)
+            return ast.fix_missing_locations(ast.copy_location(new, n))
         # messages of warnings and log records
         if (isinstance(f, ast.Name) and f.id in ('warn',)) or (isinstance(f, ast.Attribute) and (
                 (f.attr in ('debug', 'info', 'warning', 'error', 'critical', 'exception') and isinstance(f.value, ast.Name) and f.value.id in ('log', 'logger', 'logging'))
@@ -1098,6 +1122,19 @@ def _unpack_to_subscripts(fn):
             i = 0
             while i < len(body):
                 st = body[i]
+                if isinstance(st, ast.Assign) and len(st.targets) == 1 and isinstance(st.targets[0], ast.Tuple) and isinstance(st.value, ast.Name) \
+                        and all(isinstance(e, ast.Name) and e.id != st.value.id for e in st.targets[0].elts) and len(st.targets[0].elts) >= 2:
+                    new = []
+                    for j, e in enumerate(st.targets[0].elts):
+                        new.append(ast.Assign(targets=[ast.Name(id=e.id, ctx=ast.Store())],
+                                              value=ast.Subscript(value=ast.Name(id=st.value.id, ctx=ast.Load()), slice=ast.Constant(value=j), ctx=ast.Load())))
+                    for x in new:
+                        ast.copy_location(x, st)
+                        ast.fix_missing_locations(x)
+                    body[i:i + 1] = new
+                    i += len(new)
+                    changed = True
+                    continue
                 if isinstance(st, ast.Assign) and len(st.targets) == 1 and isinstance(st.targets[0], ast.Tuple) and isinstance(st.value, ast.Call) \
                         and all(isinstance(e, ast.Name) for e in st.targets[0].elts) and len(st.targets[0].elts) >= 2:
                     k[0] += 1
@@ -1583,6 +1620,106 @@ def _default_override(fn):
     return changed
 
 
+def _split_if(fn):
+    """if c: a = A; b = B  else: b = B2      ->     if c: a = A;   if c: b = B else: b = B2
+    Every statement of both branches is a plain assignment to one name or self-attribute, c is pure and reads nothing the branches store,
+    and the targets the branches share come in the same order in both."""
+    changed = False
+
+    def tkey(st):
+        if isinstance(st, ast.Assign) and len(st.targets) == 1:
+            t = st.targets[0]
+            if isinstance(t, ast.Name) or (isinstance(t, ast.Attribute) and isinstance(t.value, ast.Name)):
+                return ast.dump(t)
+        return None
+    for owner in ast.walk(fn):
+        for fld in ('body', 'orelse', 'finalbody'):
+            body = getattr(owner, fld, None)
+            if not (isinstance(body, list) and body and isinstance(body[0], ast.stmt)) or isinstance(owner, ast.Lambda):
+                continue
+            i = 0
+            while i < len(body):
+                st = body[i]
+                if not (isinstance(st, ast.If) and len(st.body) + len(st.orelse) >= 2 and (len(st.body) > 1 or len(st.orelse) > 1) and _pure_expr(st.test)):
+                    i += 1
+                    continue
+                kb = [tkey(x) for x in st.body]
+                ke = [tkey(x) for x in st.orelse]
+                if None in kb or None in ke or len(set(kb)) != len(kb) or len(set(ke)) != len(ke):
+                    i += 1
+                    continue
+                shared_b = [k for k in kb if k in ke]
+                shared_e = [k for k in ke if k in kb]
+                if shared_b != shared_e:
+                    i += 1
+                    continue
+                holder = ast.Module(body=st.body + st.orelse, type_ignores=[])
+                mut, stores = _mutated_names(holder)
+                free = {x.id for x in ast.walk(st.test) if isinstance(x, ast.Name)}
+                if free & (mut | set(stores)):
+                    i += 1
+                    continue
+                # attribute stores through self: the test must not read self
+                if any(isinstance(x.targets[0], ast.Attribute) and x.targets[0].value.id in free for x in st.body + st.orelse):
+                    i += 1
+                    continue
+                # merged order: body order, else-only statements placed before the next shared target they precede
+                order = []
+                ei = 0
+                for k in kb:
+                    if k in ke:
+                        while ke[ei] != k:
+                            order.append(ke[ei])
+                            ei += 1
+                        ei += 1
+                    order.append(k)
+                order.extend(ke[ei:])
+                new = []
+                for k in order:
+                    b_ = [x for x in st.body if tkey(x) == k]
+                    e_ = [x for x in st.orelse if tkey(x) == k]
+                    if b_:
+                        n_ = ast.If(test=clone(st.test), body=b_, orelse=e_)
+                    else:
+                        n_ = ast.If(test=_negate(clone(st.test)), body=e_, orelse=[])
+                    ast.copy_location(n_, st)
+                    ast.fix_missing_locations(n_)
+                    new.append(n_)
+                body[i:i + 1] = new
+                i += len(new)
+                changed = True
+    return changed
+
+
+def _bool_ifexp(fn):
+    """True if c else False  ->  c ;  False if c else True  ->  not c      (c yields a bool: in / not in / is / is not / not / and-or of these)"""
+    def boolean(e):
+        if isinstance(e, ast.Compare):
+            return all(isinstance(o, (ast.In, ast.NotIn, ast.Is, ast.IsNot)) for o in e.ops)
+        if isinstance(e, ast.UnaryOp) and isinstance(e.op, ast.Not):
+            return True
+        if isinstance(e, ast.BoolOp):
+            return all(boolean(v) for v in e.values)
+        if isinstance(e, ast.Constant):
+            return isinstance(e.value, bool)
+        return False
+    hit = [False]
+
+    class T(ast.NodeTransformer):
+        def visit_IfExp(self, n):
+            self.generic_visit(n)
+            if isinstance(n.body, ast.Constant) and isinstance(n.orelse, ast.Constant) and boolean(n.test):
+                if n.body.value is True and n.orelse.value is False:
+                    hit[0] = True
+                    return n.test
+                if n.body.value is False and n.orelse.value is True:
+                    hit[0] = True
+                    return ast.copy_location(_negate(n.test), n)
+            return n
+    T().visit(fn)
+    return hit[0]
+
+
 def _ifexp_assign(fn):
     """if c: x = a else: x = b   ->   x = a if c else b   (same single plain target in both branches)."""
     changed = False
@@ -1594,7 +1731,9 @@ def _ifexp_assign(fn):
             for i, st in enumerate(body):
                 if isinstance(st, ast.If) and len(st.body) == 1 and len(st.orelse) == 1 and isinstance(st.body[0], ast.Assign) \
                         and isinstance(st.orelse[0], ast.Assign) and len(st.body[0].targets) == 1 and len(st.orelse[0].targets) == 1 \
-                        and isinstance(st.body[0].targets[0], ast.Name) and ast.dump(st.body[0].targets[0]) == ast.dump(st.orelse[0].targets[0]):
+                        and (isinstance(st.body[0].targets[0], ast.Name) or (isinstance(st.body[0].targets[0], ast.Attribute)
+                                                                              and isinstance(st.body[0].targets[0].value, ast.Name))) \
+                        and ast.dump(st.body[0].targets[0]) == ast.dump(st.orelse[0].targets[0]):
                     body[i] = ast.copy_location(ast.Assign(targets=[st.body[0].targets[0]],
                                                            value=ast.IfExp(test=st.test, body=st.body[0].value, orelse=st.orelse[0].value)), st)
                     changed = True
@@ -1945,7 +2084,7 @@ def normal_form(fn, callee_info=None, consts=None):
         c.body = c.body[1:] or [ast.Pass()]
     for _ in range(6):
         before = ast.dump(c)
-        c = _E1(callee_info).visit(c)
+        c = _E1(callee_info, c.args.kwarg.arg if c.args.kwarg else None).visit(c)
         for _cap in range(40):
             if not _stmt_pass(c):
                 break
@@ -1958,8 +2097,10 @@ def normal_form(fn, callee_info=None, consts=None):
         _tail_return_dedup(c)
         _return_ifexp(c)
         _list_accumulation(c)
+        _split_if(c)
         _default_override(c)
         _ifexp_assign(c)
+        _bool_ifexp(c)
         _guard_continue(c)
         _while_counter(c)
         _loop_to_comprehension(c)
